@@ -184,6 +184,12 @@ class SymExec:
                 cval = _canon(cexpr)
             except Unsupported:
                 cval = ctext
+            # a condition already decided on this path keeps its truth value (no infeasible fork)
+            known = next((pol for c_, pol in st.cvals if c_ == cval), None) if cexpr is not None else None
+            if known is True:
+                return self.stmt(ks[1], st)
+            if known is False:
+                return self.stmt(ks[2], st) if len(ks) > 2 else [st]
             a, b = st, st.fork()
             a.cexprs.append((cexpr, True))
             b.cexprs.append((cexpr, False))
@@ -373,7 +379,7 @@ class SymExec:
             if "*" in t or "[" in t:
                 st.env[name] = Ptr(name, 0)
                 return st.env[name]
-            if "__m128" in t or "__attribute__((__vector_size__" in t:
+            if "__m128" in t or "__attribute__((__vector_size__" in t or t.replace("const ", "").strip() in ("fvec4", "ivec4"):
                 lanes = 2 if ("__m128d" in t or "double" in t) else 4
                 st.env[name] = Vec(Rat(Poly.var("%s.%d" % (name, i))) for i in range(lanes))
                 return st.env[name]
@@ -648,7 +654,7 @@ class SymExec:
             except Exception:
                 fn = None
             if fn is not None and C.body_of(fn) is not None:
-                return self.inline(fn, args, st)
+                return self.inline(fn, args, st, argn)
         if any(isinstance(a, (Ptr, Addr, Vec)) for a in args):
             raise Unsupported("call to %s with pointer/vector arguments and no model" % name)
         return self.opaque_call(name, args)
@@ -661,9 +667,19 @@ class SymExec:
         self.opaque[sym] = (name, list(args))
         return Rat(Poly.var(sym))
 
-    def inline(self, fn, args, st):
+    def inline(self, fn, args, st, argn=None):
         ps = C.fparams(fn)
         saved = {}
+        # parameters passed by non-const reference: what the callee leaves in them is written back to the caller's variable
+        backrefs = []
+        if argn is not None:
+            for p, an in zip(ps, argn):
+                t = C.qtype(p)
+                if t.rstrip().endswith("&") and not t.lstrip().startswith("const"):
+                    try:
+                        backrefs.append((p.get("name"), self.lvalue(an, st)))
+                    except Unsupported:
+                        pass
         scope = {p.get("name") for p in ps} | {v.get("name") for v in C.walk(C.body_of(fn)) if v["kind"] == "VarDecl"}
         self._scopes.append(scope)
         for p, a in zip(ps, args):
@@ -682,6 +698,15 @@ class SymExec:
         st.env = sub[0].env
         st.done = False
         st.ret = None
+        if backrefs:
+            self._scopes.append(scope)
+            try:
+                vals = [(key, st.env.get(self._k(pname))) for pname, key in backrefs]
+            finally:
+                self._scopes.pop()
+            for key, v in vals:
+                if v is not None:
+                    st.env[key] = v
         for pn, v in saved.items():
             if v is _MISSING:
                 st.env.pop(pn, None)
